@@ -218,6 +218,47 @@ fn run_impl(history: &[u8]) -> (String, Got) {
     (text, got)
 }
 
+/// The same history as a REPL session: the setup and every action are separate inputs, each
+/// parsed against the interpreter that holds the cells made by earlier inputs (names bound there
+/// are values the parser sees), each input ending with the observation - so writes and reads
+/// through names of an earlier input stand in one input.
+fn run_repl(history: &[u8]) -> (Vec<String>, Got) {
+    verif::set_fuel(Some(core::QUICK_FUEL), Some(core::DEPTH));
+    let mut interp = Interpreter::with_stdlib();
+    let mut inputs = vec![format!("c1 := mut 0; {SETUP} ()")];
+    for &a in history {
+        let (text, is_expr) = ACTIONS[a as usize];
+        inputs.push(if is_expr { format!("r := ({text}); (r, {OBSERVE})") } else { format!("{text}; ((), {OBSERVE})") });
+    }
+    let got = (|| {
+        let mut last = Variable::Void;
+        for input in &inputs {
+            let code = match guard(|| Code::parse(&interp, input)) {
+                Ok(Ok(c)) => c,
+                Ok(Err(e)) => return Got::Other(format!("rejected:{}", core::error_kind(&e))),
+                Err(Stop::Panic(p)) => return Got::Other(format!("PANIC parse {} @{}", p.short_msg(), p.file())),
+                Err(Stop::Exhausted) => return Got::Exhausted,
+            };
+            last = match guard(|| code.exec_unscoped(&mut interp)) {
+                Ok(Ok(v)) => v,
+                Ok(Err(e)) => return Got::Other(format!("error:{}", core::exec_error_kind(&e))),
+                Err(Stop::Panic(p)) => return Got::Other(format!("PANIC exec {} @{}", p.short_msg(), p.file())),
+                Err(Stop::Exhausted) => return Got::Exhausted,
+            };
+        }
+        let c1 = match interp.get_variable("c1") {
+            Some(Variable::Mut(m)) => m.variable.read().map(|g| canon(&g)).unwrap_or_else(|_| "<poisoned>".into()),
+            _ => "<c1 is not a cell>".into(),
+        };
+        match last {
+            Variable::Tuple(t) if t.len() == 2 => Got::Ran { result: canon(&t[0]), observed: canon(&t[1]), c1 },
+            v => Got::Other(format!("unexpected value {}", canon(&v))),
+        }
+    })();
+    verif::set_fuel(None, None);
+    (inputs, got)
+}
+
 pub struct Stats {
     pub states: u64,
     pub transitions: u64,
@@ -271,6 +312,21 @@ pub fn explore(depth: usize) -> (Stats, Vec<Violation>) {
                         detail: json!({"kind": "host_call", "program": text, "history": hist_text, "observed": o}),
                     }),
                 };
+                // second route: the history as a REPL session
+                let v = v.or_else(|| {
+                    let (inputs, got) = run_repl(&history);
+                    match got {
+                        Got::Exhausted => None,
+                        Got::Ran { result, observed, c1 } => (result != want_r || observed != want_obs || c1 != want_c1).then(|| Violation {
+                            sig: format!("C13|dynamic-aliasing|repl-session-differs|action={}", ACTIONS[a].0),
+                            detail: json!({"kind": "repl", "groups": inputs, "expected": format!("({want_r}, {want_obs}); c1 = {want_c1}"), "observed": format!("({result}, {observed}); c1 = {c1}")}),
+                        }),
+                        Got::Other(o) => Some(Violation {
+                            sig: format!("C13|dynamic-aliasing|repl-session-does-not-run|action={}|{}", ACTIONS[a].0, o.chars().take(40).collect::<String>()),
+                            detail: json!({"kind": "repl", "groups": inputs, "observed": o}),
+                        }),
+                    }
+                });
                 acc.push((si, a, next, v, want_obs));
             },
         );
